@@ -53,8 +53,15 @@ func OracleC06(tr *Trace) Verdict {
 	cur := map[int]*life{}
 	for _, a := range tr.APIs {
 		switch a.Call {
+		case "CancelStartContext":
+			if l := cur[a.Obj]; l != nil && a.CallT < l.to {
+				l.to = a.CallT
+			}
 		case "Start":
 			if a.Err == "" {
+				if l := cur[a.Obj]; l != nil && a.CallT < l.to {
+					l.to = a.CallT
+				}
 				l := &life{obj: a.Obj, inst: a.Inst, from: a.RetT, to: tr.End, watchOK: -1}
 				cur[a.Obj] = l
 				lives = append(lives, l)
